@@ -316,9 +316,9 @@ def lean_section(width, arms, fp):
         if a[0] == "lit": return f".lit {lean_str(a[1])}.toList"
         return "." + a[0]
     body = ",\n  ".join(f"({pat(p)}, {act(a)})" for p, a, _ in arms)
-    return (f"/-! GENERATED by tools/gen_ident_tables.py — do not edit.  The byte escaping of `emit_custom_section`\n"
+    return ("import Witverif.Text.ByteLitBase\n"
+            f"/-! GENERATED by tools/gen_ident_tables.py — do not edit.  The byte escaping of `emit_custom_section`\n"
             f"(crates/rust/src/lib.rs), fingerprint {fp}; regenerated on every `./check C09` run. -/\n"
-            "import Witverif.Text.ByteLitBase\n"
             "namespace Witverif.Generated.RustSection\nopen Witverif.Text.ByteLit\n\n"
             f"/-- `if line_length >= {width} {{ s.push_str(\"\\\\\\n\"); line_length = 0; }}` -/\ndef wrapWidth : Nat := {width}\n\n"
             "/-- the arms of `match byte { … }`, in source order -/\n"
